@@ -38,7 +38,42 @@ import (
 	"github.com/istio-ecosystem/authservice/internal/server"
 )
 
-func init() { checks["CChammer"] = runCCHammerChild }
+func init() {
+	checks["CChammer"] = runCCHammerChild
+	checks["CCstore"] = runCCStoreChild
+}
+
+// storeCrashProbe: the concurrent store probes (expired sessions read by many requests at once, the sweep against writers)
+// in a CHILD process: if the store's map is touched without its lock the Go runtime aborts the whole process
+// ("fatal error: concurrent map writes"), which no recover() can catch - for the service that is a crash of every check.
+func storeCrashProbe(r *Run, tag string) {
+	ctx, cancel := context.WithTimeout(context.Background(), 120*time.Second)
+	defer cancel()
+	cmd := exec.CommandContext(ctx, os.Args[0], "CCstore", "-tier", r.Tier, "-seed", fmt.Sprint(r.Seed), "-out", filepath.Join(r.Out, "ccstore"))
+	var out bytes.Buffer
+	cmd.Stdout, cmd.Stderr = &out, &out
+	err := cmd.Run()
+	text := out.String()
+	_ = os.WriteFile(filepath.Join(r.Out, "ccstore.log"), out.Bytes(), 0o644)
+	switch {
+	case strings.Contains(text, "fatal error:") || strings.Contains(text, "panic:"):
+		r.Violate(tag+" concurrent checks on one session of the in-memory store crash the process (fatal runtime error: the store's map is accessed without its lock)",
+			map[string]any{"log_tail": tail(text, 3000), "steps": "a session past its idle limit is read by 8 goroutines at once (GetTokenResponse / GetAuthorizationState); RemoveAllExpired against writers"})
+	case ctx.Err() != nil:
+		r.Violate(tag+" concurrent operations on the in-memory store did not terminate", map[string]any{"log_tail": tail(text, 2000)})
+	case err != nil && !strings.Contains(text, "CC-STORE-DONE"):
+		r.Violate(tag+" the concurrent store probe failed", map[string]any{"error": err.Error(), "log_tail": tail(text, 2000)})
+	}
+	r.Case("store-crash-probe")
+	r.Dist["store-crash-probe"]++
+}
+
+func runCCStoreChild(r *Run) {
+	concurrentExpiredReads(r, "[child]")
+	concurrentSweep(r, "[child]")
+	fmt.Println("CC-STORE-DONE")
+	os.Exit(0)
+}
 
 // consistencyHammer: the parent side. Violations found by the child are reported under `tag`.
 func consistencyHammer(r *Run, tag string) {
@@ -101,8 +136,14 @@ func runCCHammerChild(r *Run) {
 		// the code carries the nonce of its login (the "provider" remembers what it was asked)
 		nonce := strings.TrimPrefix(code, "code-for-")
 		time.Sleep(2 * time.Millisecond) // an exchange takes a moment: overlapping callbacks really overlap
+		aud := "cc-client"
+		if raw, err := base64.StdEncoding.DecodeString(strings.TrimPrefix(req.Header.Get("Authorization"), "Basic ")); err == nil {
+			if i := strings.IndexByte(string(raw), ':'); i > 0 {
+				aud = string(raw[:i]) // the provider issues the token for the client that authenticated
+			}
+		}
 		b, _ := json.Marshal(map[string]any{"token_type": "Bearer", "expires_in": 600, "access_token": "at-" + nonce,
-			"id_token": mintToken(tokSpec{Mode: "good", Exp: time.Now().Unix() + 600, Aud: "cc-client", Nonce: nonce, Sub: "u-" + nonce, Extra: nonce})})
+			"id_token": mintToken(tokSpec{Mode: "good", Exp: time.Now().Unix() + 600, Aud: aud, Nonce: nonce, Sub: "u-" + nonce, Extra: nonce})})
 		_, _ = w.Write(b)
 	}))
 	idp.Config.SetKeepAlivesEnabled(false)
@@ -115,11 +156,19 @@ func runCCHammerChild(r *Run) {
 	must(err)
 	defer mr.Close()
 	oc.RedisSessionStoreConfig = &oidcv1.RedisConfig{ServerUri: "redis://" + mr.Addr()}
+	// a second OIDC filter with a provider, client and cookie prefix of its own (same Redis server, as deployments do):
+	// half of the browsers log in through it, at the same time as the others log in through the first
+	ocB := &oidcv1.OIDCConfig{ClientId: "cc-client-b", ClientSecretConfig: &oidcv1.OIDCConfig_ClientSecret{ClientSecret: "cc-secret-b"}, CookieNamePrefix: "pb",
+		CallbackUri: "https://app.example.com/callback", AuthorizationUri: "https://idp-b.example.com/authorize", TokenUri: idp.URL + "/token-b",
+		Scopes: []string{"openid"}, IdToken: &oidcv1.TokenConfig{Header: "authorization", Preamble: "Bearer"}, JwksConfig: &oidcv1.OIDCConfig_Jwks{Jwks: keys().doc},
+		RedisSessionStoreConfig: &oidcv1.RedisConfig{ServerUri: "redis://" + mr.Addr()}}
 	cfg := &configv1.Config{Chains: []*configv1.FilterChain{
 		{Name: "deny", Match: &configv1.Match{Header: "x-app", Criteria: &configv1.Match_Equality{Equality: "deny"}},
 			Filters: []*configv1.Filter{{Type: &configv1.Filter_Mock{Mock: &mockv1.MockConfig{Allow: false}}}}},
 		{Name: "allow", Match: &configv1.Match{Header: "x-app", Criteria: &configv1.Match_Equality{Equality: "allow"}},
 			Filters: []*configv1.Filter{{Type: &configv1.Filter_Mock{Mock: &mockv1.MockConfig{Allow: true}}}}},
+		{Name: "oidc-b", Match: &configv1.Match{Header: "x-app", Criteria: &configv1.Match_Equality{Equality: "b"}},
+			Filters: []*configv1.Filter{{Type: &configv1.Filter_Oidc{Oidc: ocB}}}},
 		{Name: "oidc", Filters: []*configv1.Filter{{Type: &configv1.Filter_Oidc{Oidc: oc}}}}}}
 	fac := oidc.NewSessionStoreFactory(cfg)
 	must(fac.PreRun())
@@ -158,6 +207,20 @@ func runCCHammerChild(r *Run) {
 				}
 				keep = keep[:0]
 			}
+			// odd browsers use the second filter: its own provider, client id and cookie name - in every answer they get
+			app, wantAuth, wantClient, wantCookie := "", "https://idp.example.com/auth?", "cc-client", "__Host-authservice-session-id-cookie"
+			if g%2 == 1 {
+				app, wantAuth, wantClient, wantCookie = "b", "https://idp-b.example.com/authorize?", "cc-client-b", "__Host-pb-authservice-session-id-cookie"
+			}
+			hdr := func(m map[string]string) map[string]string {
+				if app != "" {
+					if m == nil {
+						m = map[string]string{}
+					}
+					m["x-app"] = app
+				}
+				return m
+			}
 			for i := 0; time.Now().Before(deadline); i++ {
 				me := fmt.Sprintf("g%d-%d", g, i)
 				target := "/page/" + me + "?q=" + me
@@ -175,7 +238,7 @@ func runCCHammerChild(r *Run) {
 					}
 					keep = append(keep, held{resp, showResp(resp, nil), "mock " + app})
 				}
-				r1, err := filter.Check(context.Background(), httpReq("https", "app.example.com", target, "", map[string]string{"x-forwarded-for": "203.0.113.7", "user-agent": "Mozilla/5.0 (X11; Linux x86_64)"}))
+				r1, err := filter.Check(context.Background(), httpReq("https", "app.example.com", target, "", hdr(map[string]string{"x-forwarded-for": "203.0.113.7", "user-agent": "Mozilla/5.0 (X11; Linux x86_64)"})))
 				count("login-redirect")
 				if err != nil || r1 == nil || r1.GetDeniedResponse() == nil {
 					violate("no login redirect for an unauthenticated request", map[string]any{"got": showResp(r1, err)})
@@ -188,6 +251,11 @@ func runCCHammerChild(r *Run) {
 				cs := (&http.Response{Header: http.Header{"Set-Cookie": []string{sck}}}).Cookies()
 				if nloc != 1 || nsc != 1 || u == nil || len(cs) != 1 {
 					violate("a login redirect does not carry exactly one Location and one Set-Cookie of its own", map[string]any{"answer": show1})
+					return
+				}
+				if !strings.HasPrefix(loc, wantAuth) || u.Query().Get("client_id") != wantClient || cs[0].Name != wantCookie {
+					violate("a filter's login redirect carries another filter's provider, client id or cookie name (answers of different filters got mixed up under concurrency)",
+						map[string]any{"filter": wantClient, "expected_authorization_endpoint": wantAuth, "expected_cookie_name": wantCookie, "answer": show1})
 					return
 				}
 				sid, state, nonce, challenge := cs[0].Value, u.Query().Get("state"), u.Query().Get("nonce"), u.Query().Get("code_challenge")
@@ -211,7 +279,7 @@ func runCCHammerChild(r *Run) {
 				attacked := i%4 == 1
 				var awg sync.WaitGroup
 				if attacked {
-					ra, err := filter.Check(context.Background(), httpReq("https", "app.example.com", "/attacker/"+me, "", nil))
+					ra, err := filter.Check(context.Background(), httpReq("https", "app.example.com", "/attacker/"+me, "", hdr(nil)))
 					loca, _ := hdrValue(ra.GetDeniedResponse().GetHeaders(), "location")
 					scka, _ := hdrValue(ra.GetDeniedResponse().GetHeaders(), "set-cookie")
 					ua, _ := url.Parse(loca)
@@ -222,12 +290,12 @@ func runCCHammerChild(r *Run) {
 						go func() {
 							defer awg.Done()
 							count("injected-callback")
-							rb, err := filter.Check(context.Background(), httpReq("https", "app.example.com", "/callback?code="+code+"&state="+ua.Query().Get("state"), "", map[string]string{"cookie": acookie}))
+							rb, err := filter.Check(context.Background(), httpReq("https", "app.example.com", "/callback?code="+code+"&state="+ua.Query().Get("state"), "", hdr(map[string]string{"cookie": acookie})))
 							if locb, _ := hdrValue(rb.GetDeniedResponse().GetHeaders(), "location"); err == nil && locb == "https://app.example.com/attacker/"+me {
 								violate("a callback that presented ANOTHER login's authorization code under its own session was completed (the ID token it was given carries the other session's nonce)",
 									map[string]any{"victim_login": me, "answer": showResp(rb, err)})
 							}
-							rc, err := filter.Check(context.Background(), httpReq("https", "app.example.com", "/attacker/"+me, "", map[string]string{"cookie": acookie}))
+							rc, err := filter.Check(context.Background(), httpReq("https", "app.example.com", "/attacker/"+me, "", hdr(map[string]string{"cookie": acookie})))
 							if err == nil && rc != nil && rc.GetStatus().GetCode() == 0 {
 								violate("a session was authenticated with tokens that were validated for ANOTHER session: it presented that session's authorization code while the other callback was in progress",
 									map[string]any{"victim_login": me, "answer": showResp(rc, err)})
@@ -235,7 +303,7 @@ func runCCHammerChild(r *Run) {
 						}()
 					}
 				}
-				r2, err := filter.Check(context.Background(), httpReq("https", "app.example.com", "/callback?code="+code+"&state="+state, "", map[string]string{"cookie": cs[0].Name + "=" + sid}))
+				r2, err := filter.Check(context.Background(), httpReq("https", "app.example.com", "/callback?code="+code+"&state="+state, "", hdr(map[string]string{"cookie": cs[0].Name + "=" + sid})))
 				count("callback")
 				recheck()
 				loc2, _ := hdrValue(r2.GetDeniedResponse().GetHeaders(), "location")
@@ -276,7 +344,7 @@ func runCCHammerChild(r *Run) {
 						map[string]any{"login": me, "code": code, "times_received": n, "challenge_of_the_redirect": challenge, "verifier_received": verifier})
 					return
 				}
-				r3, err := filter.Check(context.Background(), httpReq("https", "app.example.com", target, "", map[string]string{"cookie": cs[0].Name + "=" + sid}))
+				r3, err := filter.Check(context.Background(), httpReq("https", "app.example.com", target, "", hdr(map[string]string{"cookie": cs[0].Name + "=" + sid})))
 				count("authenticated-request")
 				if err != nil || r3 == nil || r3.GetStatus().GetCode() != 0 {
 					violate("a browser that had just logged in was not let through", map[string]any{"login": me, "got": showResp(r3, err)})
